@@ -25,6 +25,8 @@ func (server *Server) Set(conn *redis.Conn, key string, val string, opt redis.Se
 	if err != nil {
 		return nil, err
 	}
+	db.Lock()
+	defer db.Unlock()
 
 	record := &Record{
 		Key:       key,
@@ -62,6 +64,8 @@ func (server *Server) Get(conn *redis.Conn, key string) (*redis.Message, error) 
 	if err != nil {
 		return nil, err
 	}
+	db.Lock()
+	defer db.Unlock()
 	record, ok := db.GetRecord(key)
 	if !ok {
 		return redis.NewNilMessage(), nil
